@@ -163,6 +163,7 @@ pub fn run(args: &Args) -> i32 {
 fn finish(mut ev: Evidence, violation: Option<Value>) -> i32 {
     if let Some(v) = violation {
         ev.violations = 1;
+        ev.violation_sample(&v);
         ev.write();
         report_violation("C12", &v);
         return 1;
